@@ -23,7 +23,9 @@ RULE = (
     "every connected period. A step bound of last+1 periods turns non-termination into a "
     "violation. The same scenario is also run on a simulator dumped to JSON and loaded before its "
     "first period (end state, events, order, identical rates), and the EventQueue object may have "
-    "been queried for a late period before it was filled. Non-trivial = two sessions share a "
+    "been queried for a late period before it was filled. Second use: after run() returned, the same "
+    "sessions shifted behind the end are added to the queue and run() is called again - the result "
+    "must equal one run over both batches. Non-trivial = two sessions share a "
     "station or two events share a period."
 )
 ASSUMPTIONS = [
@@ -114,6 +116,8 @@ def prop(spec, rec):
     # the same scenario on a simulator that went through a JSON dump / load before its first period
     if spec.get("also_json", True):
         check_json_built(spec, m, R, labels)
+    if spec.get("second_batch"):
+        check_second_run(spec, m, labels)
     if spec.get("queue_preused"):
         labels.add("queue_object_used_before")
     if exact:
@@ -122,6 +126,47 @@ def prop(spec, rec):
         labels.add("charged")
     nt = bool(labels & {"two_sessions_one_station", "simultaneous_events"})
     rec.case(spec, labels, nt)
+
+
+def check_second_run(spec, m, labels):
+    """Second use of the same simulator: after run() returned, a second batch of sessions (the
+    same sessions shifted behind the end of the first batch) is added to its queue and run() is
+    called again.  The outcome must be that of ONE run over both batches."""
+    import copy
+
+    off = m.end + spec["second_batch"] - 1  # first period of the second batch
+    batch2 = []
+    for x in spec["sessions"]:
+        y = copy.deepcopy(x)
+        y["id"] = x["id"] + "-again"
+        y["arrival"] += off
+        y["departure"] += off
+        if y.get("est_departure") is not None:
+            y["est_departure"] += off
+        batch2.append(y)
+    both = dict(spec, sessions=spec["sessions"] + batch2, recomputes=list(spec.get("recomputes", [])), event_order=[], second_batch=None, queue_preused=None)
+    one = sc.build_sim(both)
+    sc.run_sim(one)
+    two = sc.build_sim(dict(spec, queue_preused=None))
+    sc.run_sim(two)
+    from acnportal.acnsim import PluginEvent
+
+    evs2 = {y["id"]: sc.build_ev(y) for y in batch2}
+    two.sim.event_queue.add_events([PluginEvent(ev.arrival, ev) for ev in evs2.values()])
+    two.evs.update(evs2)
+    sc.run_sim(two)
+    W = one.sim.iteration
+    require(two.sim.iteration == W and two.sim.event_queue.empty(), "second_run_ends", lambda: "second run() ended at iteration %r, one run over both batches at %r" % (two.sim.iteration, W))
+    for name in ("pilot_signals", "charging_rates"):
+        a, b = getattr(one.sim, name)[:, :W], getattr(two.sim, name)[:, :W]
+        require(a.shape == b.shape and np.array_equal(a, b), "second_run_differs_from_single_run", lambda: "%s of (run, add events, run) differ from one run over all events:\n%r\n%r" % (name, b, a))
+    e1 = {k: ev.energy_delivered for k, ev in one.evs.items()}
+    e2 = {k: ev.energy_delivered for k, ev in two.evs.items()}
+    require(e1 == e2, "second_run_energies", lambda: "energies %r vs %r" % (e2, e1))
+    k1 = sorted(sc.event_key(e) for e in one.sim.event_history)
+    k2 = sorted(sc.event_key(e) for e in two.sim.event_history)
+    require(k1 == k2, "second_run_events", lambda: "events %r vs %r" % (k2, k1))
+    labels.add("second_run_on_same_simulator")
 
 
 def check_json_built(spec, m, R, labels):
@@ -152,15 +197,27 @@ def check_json_built(spec, m, R, labels):
     labels.add("json_built_run")
 
 
+from hypothesis import strategies as st  # noqa: E402
+
+
+@st.composite
+def cases(draw):
+    spec = draw(sc.scenarios())
+    # a quarter of the scenarios are also continued with a second batch of events
+    if spec["scheduler"]["kind"] in ("scripted", "uncontrolled") and not spec["scheduler"].get("always_max"):
+        spec["second_batch"] = draw(st.sampled_from([None, None, None, 1, 3]))
+    return spec
+
+
 def subchecks(tier):
     return [
         Given(
             "run_loop",
-            sc.scenarios(),
+            cases(),
             prop,
             quick=500,
             thorough=40000,
-            floors={"back_to_back": 0.2, "simultaneous_different_types": 0.3, "exact_family": 0.04, "recompute_after_last_departure": 0.05, "mr_None": 0.1},
+            floors={"second_run_on_same_simulator": 0.08, "json_built_run": 0.45, "back_to_back": 0.2, "simultaneous_different_types": 0.3, "exact_family": 0.04, "recompute_after_last_departure": 0.05, "mr_None": 0.1},
         )
     ]
 
